@@ -79,6 +79,8 @@ class Interp(ExprMixin):
         self._exec_tab = {}
         self._cvar_cache = {}
         self._names_cache = {}
+        self._inert_cache = {}
+        self.oob_events = []
         self.loop_overrides = {}      # while-node id -> callable(frame)
         self.stop_at = None
         self.trace_calls = None
@@ -769,7 +771,35 @@ class Interp(ExprMixin):
             else:
                 raise Unsupported("del target")
 
+    def _inert(self, body):
+        """Statement whose only effect is a logging/warning/print stub call."""
+        if body is None or isinstance(body, N.PassStatNode):
+            return True
+        if isinstance(body, N.StatListNode):
+            return all(self._inert(s) for s in body.stats)
+        if isinstance(body, N.ExprStatNode) and isinstance(body.expr, (E.SimpleCallNode, E.GeneralCallNode)):
+            f = body.expr.function
+            if isinstance(f, E.NameNode) and f.name == "print":
+                return True
+            if isinstance(f, E.AttributeNode) and isinstance(f.obj, E.NameNode) and f.obj.name in ("warnings", "logging"):
+                return True
+        return False
+
+    def _pure_cond(self, node):
+        for nd in _walk(node):
+            if isinstance(nd, (E.SimpleCallNode, E.GeneralCallNode)):
+                return False
+        return True
+
     def x_IfStatNode(self, n, fr):
+        key = id(n)
+        skip = self._inert_cache.get(key)
+        if skip is None:
+            skip = self._inert(n.else_clause) and all(self._inert(c.body) and self._pure_cond(c.condition)
+                                                      for c in n.if_clauses)
+            self._inert_cache[key] = skip
+        if skip and _sym._CTX is not None:
+            return      # branches differ only in diagnostics: not forked (DESIGN 2.6)
         for c in n.if_clauses:
             if self.truth(self.eval(c.condition, fr)):
                 self.exec(c.body, fr)
